@@ -49,3 +49,8 @@ claim('C09',
       'dominance of the duplicate guard over the completion counter, consuming-completion (typestate by ownership + provenance), key provenance, reachability of the expiry predicate from the receive entry point, traversal-order shape rule, PANIC family with interval/relational discharge, forward-slice transfer rule',
       'Decided from MIR: every received_count increment is under the is-empty test of the very slot it fills and is_complete is an equality with the total (duplicates never count; completion happens exactly at the last missing fragment); a completed message passed to reassemble was removed from pending or never inserted and reassemble consumes it; every pending access is keyed by the call\'s own sequence id (isolation); the expiry predicate is reachable from Connection::receive_message; buffered continuations are transferred when the total becomes known; no panic-capable site in the assembler is undischarged; the concatenation order is checked against the protocol\'s descending-id order (recorded known finding). Not decided: permutation invariance as a quantified statement, memory accounting.',
       NOTE, 'DESIGN.md §4 C09')
+
+claim('C02',
+      'PANIC / ALLOC / REC / read-to-end obligation families over the call graph reachable from the decode entry points, discharged by guard-aware interval + relational analysis (suffix relation of parser results, take(n) lengths, loop-variable bounds), reviewed table with stated premises for the remainder',
+      'For every function of erltf reachable from the 8 decode entry points (and BorrowedTerm::to_owned) every panic-capable site (slice/array indexing, arithmetic overflow, division, unwrap/expect, explicit panic, partial std APIs), every wire-sized allocation (must be bounded by the remaining input length or by <= 1 MiB) and every read_to_end (must go through io::Take) is enumerated from MIR and discharged on all paths, and every call-graph cycle is checked for a depth guard (three recorded known findings: unbounded recursion). A handful of sites are discharged by a reviewed table whose entries state the premise (nom suffix property, flate2 total_in contract, static table). Not decided: peak memory / stack depth as numbers, behaviour of nom / flate2 / bytes internals.',
+      NOTE, 'DESIGN.md §4 C02')
